@@ -245,6 +245,23 @@ pub fn template_pairs() -> Vec<(&'static str, String, String)> {
         v.push(("index-register-vs-constant", format!("X = {}; arr[X]++;", k), format!("X = {}; arr[{}]++;", k, k)));
         v.push(("index-register-vs-constant", format!("X = {}; sarr[X] = s;", k % 2), format!("X = {}; sarr[{}] = s;", k % 2, k % 2)));
     }
+    // ++x versus x += 1 (and --x versus x -= 1) right after an operation that leaves a carry, right before a test
+    for pre in ["c = a - b;", "c = b - a;", "c = a + b;", "c = a << 1;", "if (a < b) c = 1;"] {
+        for (inc, add) in [("++b;", "b += 1;"), ("b++;", "b += 1;"), ("--b;", "b -= 1;"), ("arr[X]++;", "arr[X] += 1;"), ("s++;", "s += 1;"), ("s--;", "s -= 1;")] {
+            let v_ = if inc.contains("arr") { "arr[X]" } else if inc.contains('s') { "s" } else { "b" };
+            for test in ["{} > 0", "{} <= 0", "{} >= 1", "{} == 0", "{} < 1", "{} != 0"] {
+                let t = test.replace("{}", v_);
+                v.push(("increment-vs-add-one", format!("{} {} if ({}) r = 1; else r = 2;", pre, inc, t), format!("{} {} if ({}) r = 1; else r = 2;", pre, add, t)));
+            }
+        }
+    }
+    // a < b versus b > a on 16-bit operands (equal and different high bytes come from the input domain)
+    for (x, y) in [("s", "t"), ("u", "s"), ("s", "u"), ("sarr[X]", "s")] {
+        for (o1, o2) in [("<", ">"), ("<=", ">="), (">", "<"), (">=", "<=")] {
+            v.push(("flip-16-bit-comparison", format!("if ({} {} {}) r = 1; else r = 2;", x, o1, y), format!("if ({} {} {}) r = 1; else r = 2;", y, o2, x)));
+            v.push(("flip-16-bit-comparison", format!("r = 0; while ({} {} {}) {{ r++; break; }}", x, o1, y), format!("r = 0; while ({} {} {}) {{ r++; break; }}", y, o2, x)));
+        }
+    }
     let fns = "void f0() { c = c + 1; }\nchar f1() { return a + 1; }\nchar f2(char v) { return v + b; }\nvoid f4(char v) { arr[X] = v; }\nchar f9(char v) { if (v == 3) return 0; return v; }\n";
     for (call, inplace) in [
         ("f0();", "c = c + 1;"),
@@ -434,7 +451,7 @@ impl C15 {
                         None => (String::new(), t.to_string()),
                     };
                     let src = format!("{}{}void main()\n{{\n{}\n}}\n", D0_TEXT, fns, body);
-                    let small: Vec<(&str, &[i32])> = vec![("a", &[0, 1, 2, 3, 0x80, 255]), ("b", &[0, 1, 0x11, 0xff]), ("c", &[0, 7, 255]), ("r", &[0]), ("X", &[0, 1, 2]), ("Y", &[0, 1, 3]), ("s", &[0, 0x1234])];
+                    let small: Vec<(&str, &[i32])> = vec![("a", &[0, 1, 2, 3, 0x80, 255]), ("b", &[0, 1, 0x11, 0xff]), ("c", &[0, 7, 255]), ("r", &[0]), ("X", &[0, 1, 2]), ("Y", &[0, 1, 3]), ("s", &[0, 1, 0x100, 0x101, 0x1234, 0x8000]), ("t", &[0, 1, 0x100, 0x1ff, 0x1234]), ("u", &[0, 0x100, 0x1ff, 0xffff])];
                     case_from_text("C15.tmpl", &src, &small, vec!["template"], 300)
                 };
                 let a = mk(x);
@@ -454,7 +471,7 @@ impl Check for C15 {
         "exploration"
     }
     fn rule(&self) -> String {
-        "Base programs: families F1 (expressions), F2 (control flow, switch arrangements), F3, F4 (statement sequences), F7. Seven meaning-preserving AST rewrite rules are applied at each of the first three applicable sites of every program: commute the operands of + & | ^ (side-effect-free operands); a < b <-> b > a and a <= b <-> b >= a; x op= e <-> x = x op e; statement-level ++x / x++ / --x / x-- <-> x += 1 / x -= 1; if (c) A else B <-> if (!c) B else A; for <-> while (bodies without continue); switch <-> if-chain (groups ending in break, default last). Plus template pairs: indexing through a register holding k versus the constant k (read, write, +=, ++, compare, 16-bit arrays), and a call versus its body written in place (also with the function marked inline). Both spellings are compiled at -O1 and -O0; if both are accepted they are co-executed from every enumerated input and must end in the same RAM/X/Y. Non-trivial = both spellings executed; distinct = distinct (original, rewritten) pair.".into()
+        "Base programs: families F1 (expressions), F2 (control flow, switch arrangements), F3, F4 (statement sequences), F7. Seven meaning-preserving AST rewrite rules are applied at each of the first three applicable sites of every program: commute the operands of + & | ^ (side-effect-free operands); a < b <-> b > a and a <= b <-> b >= a; x op= e <-> x = x op e; statement-level ++x / x++ / --x / x-- <-> x += 1 / x -= 1; if (c) A else B <-> if (!c) B else A; for <-> while (bodies without continue); switch <-> if-chain (groups ending in break, default last). Plus template pairs: indexing through a register holding k versus the constant k (read, write, +=, ++, compare, 16-bit arrays), a call versus its body written in place (also with the function marked inline), ++x versus x += 1 between an operation that leaves a carry and a test of x, and flipped 16-bit comparisons over inputs with equal and different high bytes. Both spellings are compiled at -O1 and -O0; if both are accepted they are co-executed from every enumerated input and must end in the same RAM/X/Y. Non-trivial = both spellings executed; distinct = distinct (original, rewritten) pair.".into()
     }
     fn assumptions(&self) -> Vec<String> {
         vec!["purely differential: no reference model; a spelling the compiler rejects is counted, not judged".into()]
